@@ -1,0 +1,1 @@
+//! Verification hook: raw-byte entry points of the network stack (preface, frames, mux, rpc) for totality checks.
